@@ -11,5 +11,5 @@ for p in "$@"; do
   out=$(VERIF_SEED=${SEEDNO:-1} ./check $p --tier ${TIER:-quick} 2>&1)
   rc=$?
   e=$(date +%s)
-  echo "SEED $(basename $(dirname $PATCH))/$(basename $PATCH) check=$p rc=$rc $((e-s))s :: $(echo "$out" | grep -E 'VIOLATION|INCONCLUSIVE|held on|signature=' | cut -c1-260 | tr '\n' '|')"
+  echo "SEED $(basename $(dirname $PATCH))/$(basename $PATCH) check=$p rc=$rc $((e-s))s :: $(echo "$out" | grep -E 'INCONCLUSIVE|held on' | cut -c1-200 | tr '\n' '|') sigs=[$(echo "$out" | grep -oE 'signature=[^ ]+' | sort | uniq -c | sort -rn | head -6 | awk '{print $2"x"$1}' | tr '\n' ' ')]"
 done
